@@ -2,7 +2,7 @@
 // goakt actor system (in-process, no remoting/cluster) and records an NDJSON trace
 // for the Trace_*.tla monitors.
 //
-//	stackstash replay stack|stash <behaviours.ndjson> <trace.ndjson>
+//	stackstash replay stack|stash|restash <behaviours.ndjson> <trace.ndjson>
 //
 // One fresh actor per behaviour. The actor is a puppet: every behavior function
 // (Receive = "D", BehA/BehB/BehC = "A"/"B"/"C") parks at its entry, reports which
@@ -27,7 +27,9 @@ import (
 
 	"github.com/tochemey/goakt/v4/actor"
 	gerrors "github.com/tochemey/goakt/v4/errors"
+	"github.com/tochemey/goakt/v4/internal/commands"
 	"github.com/tochemey/goakt/v4/log"
+	"github.com/tochemey/goakt/v4/reentrancy"
 	"github.com/tochemey/goakt/v4/supervisor"
 	"github.com/tochemey/goakt/v4/verifharness/vtrace"
 )
@@ -47,6 +49,10 @@ type Msg struct{ ID int }
 // Reply answers an Ask-delivered Msg.
 type Reply struct{ ID int }
 
+// Req / Resp travel between the puppet and a responder through ctx.Request.
+type Req struct{ K int }
+type Resp struct{ K int }
+
 type entry struct {
 	h   string
 	ctx *actor.ReceiveContext
@@ -57,6 +63,8 @@ type entry struct {
 type cmd struct {
 	op string
 	b  string
+	k  int        // Request: request number
+	to *actor.PID // Request: responder
 }
 
 type opResult struct {
@@ -69,6 +77,7 @@ type puppet struct {
 	res    chan opResult
 	sentBy map[int]*Msg
 	mu     sync.Mutex
+	done   []int // request numbers in completion-callback order (negative: completed with an error)
 }
 
 func newPuppet() *puppet {
@@ -139,6 +148,20 @@ func (p *puppet) handle(h string, ctx *actor.ReceiveContext) {
 			ctx.Unstash()
 		case "UnstashAll":
 			ctx.UnstashAll()
+		case "Request":
+			k := c.k
+			call := ctx.Request(c.to, &Req{K: k}, actor.WithReentrancyMode(reentrancy.StashNonReentrant))
+			if call != nil {
+				call.Then(func(resp any, err error) {
+					p.mu.Lock()
+					defer p.mu.Unlock()
+					if rp, ok := resp.(*Resp); ok && err == nil && rp.K == k {
+						p.done = append(p.done, k)
+					} else {
+						p.done = append(p.done, -k)
+					}
+				})
+			}
 		default:
 			panic("unknown op " + c.op)
 		}
@@ -195,6 +218,7 @@ type run struct {
 	corrupt bool // the projected lists hit the walk limit: abandon the behaviour
 
 	curStashed bool // the current handler stashed its message successfully
+	sendQuiet  bool // restash mode logs the send itself
 }
 
 const watchdog = 10 * time.Second
@@ -302,7 +326,7 @@ func (r *run) state(ev map[string]any) map[string]any {
 }
 
 func (r *run) via(id int) string {
-	if r.mode != "stash" {
+	if r.mode == "stack" {
 		return "tell"
 	}
 	switch id % 3 {
@@ -351,11 +375,11 @@ func (r *run) send() int {
 		}()
 		<-sc.ch
 	}
-	if r.mode == "stack" {
+	if r.mode == "stack" || r.sendQuiet {
 		if res != "" {
 			fatal("send failed:", res)
 		}
-		return id // C14: the send is part of the model's Deliver step
+		return id // C14: the send is part of the model's Deliver step; restash: logged by the caller
 	}
 	r.w.Raw(r.state(map[string]any{"op": "Send", "id": id, "via": r.via(id), "res": res}))
 	return id
@@ -468,6 +492,9 @@ func (r *run) behaviour(n int, steps []step) {
 	if r.buffer {
 		opts = append(opts, actor.WithStashing())
 	}
+	if r.mode == "restash" {
+		opts = append(opts, actor.WithReentrancy(reentrancy.New(reentrancy.WithMode(reentrancy.StashNonReentrant))))
+	}
 	pid, err := r.sys.Spawn(ctx, fmt.Sprintf("puppet-%d", n), r.p, opts...)
 	if err != nil {
 		fatal("spawn:", err)
@@ -485,6 +512,10 @@ func (r *run) behaviour(n int, steps []step) {
 	r.settle() // PostStart handled
 	r.w.Raw(r.state(map[string]any{"op": "New", "buffer": r.buffer}))
 
+	if r.mode == "restash" {
+		r.restash(n, steps)
+		steps = nil
+	}
 	for _, s := range steps {
 		if r.corrupt {
 			break
@@ -504,12 +535,24 @@ func (r *run) behaviour(n int, steps []step) {
 			r.deliver()
 		case "Become", "BecomeStacked", "UnBecomeStacked", "UnBecome", "Stash", "Unstash", "UnstashAll":
 			r.op(cmd{op: s.Op, b: s.B})
+		case "Restart":
+			// PID.Restart from outside, between two messages
+			r.finish()
+			r.settle()
+			res := ""
+			if err := r.pid.Restart(ctx); err != nil {
+				res = err.Error()
+			}
+			ev := map[string]any{"op": "Restart", "err": res, "h": "none", "running": r.pid.IsRunning()}
+			r.w.Raw(r.state(ev))
 		default:
 			fatal("unknown step", s.Op)
 		}
 	}
 	// ---- epilogue: make the remaining state observable through the public behaviour
-	if r.mode == "stack" {
+	if r.mode == "restash" {
+		// done in restash()
+	} else if r.mode == "stack" {
 		// pop the whole stack, one UnBecomeStacked per message, until nothing handles messages
 		for i := 0; i < len(steps)+3; i++ {
 			r.finish()
@@ -559,6 +602,179 @@ func (r *run) drain() {
 	r.corrupt = true
 }
 
+// responder answers one Req when the driver releases it.
+type responder struct {
+	arrived chan struct{}
+	release chan struct{}
+	done    chan struct{}
+}
+
+func (*responder) PreStart(*actor.Context) error { return nil }
+func (*responder) PostStop(*actor.Context) error { return nil }
+func (q *responder) Receive(ctx *actor.ReceiveContext) {
+	rq, ok := ctx.Message().(*Req)
+	if !ok {
+		return
+	}
+	q.arrived <- struct{}{}
+	<-q.release
+	ctx.Response(&Resp{K: rq.K})
+	q.done <- struct{}{}
+}
+
+// ---- mode "restash": the eager model of ReStash.tla -- every step ends settled and a
+// parked handler is taken over immediately.
+func (r *run) rlog(op string, id int, extra map[string]any) {
+	e := r.settle()
+	prev := r.cur
+	r.cur = e
+	if e != prev {
+		r.curStashed = false
+	}
+	ev := map[string]any{"op": op, "id": id}
+	for k, v := range extra {
+		ev[k] = v
+	}
+	if e == nil {
+		ev["cur"], ev["h"], ev["ok"] = 0, "none", true
+	} else {
+		ev["cur"], ev["h"] = e.msg.ID, e.h
+		s := e.ctx.Sender()
+		want := "nosender"
+		if e.msg.ID%3 == 0 {
+			want = "S"
+		}
+		got := "other"
+		switch {
+		case s == nil:
+			got = "nil"
+		case s.Equals(r.sys.NoSender()):
+			got = "nosender"
+		case s.Equals(r.sender):
+			got = "S"
+		}
+		ev["ok"] = e.ptr && e.ctx.Self() == r.pid && got == want
+	}
+	msgs, _ := r.pid.VerifMailboxMessages()
+	mb := []int{}
+	for _, m := range msgs {
+		switch mm := m.(type) {
+		case *Msg:
+			mb = append(mb, mm.ID)
+		case *commands.AsyncResponse:
+			if rp, ok := mm.Message.(*Resp); ok {
+				mb = append(mb, -rp.K)
+			} else {
+				mb = append(mb, -99)
+			}
+		default:
+			mb = append(mb, -98)
+		}
+	}
+	st, hasBuf := r.pid.VerifStashMessages()
+	if len(msgs) >= 4096 || len(st) >= 4096 {
+		r.corrupt = true
+		mb, st = mb[:1], st[:0]
+	}
+	r.p.mu.Lock()
+	done := append([]int{}, r.p.done...)
+	r.p.mu.Unlock()
+	ev["mbox"], ev["stash"], ev["hasbuf"] = mb, msgIDs(st), hasBuf
+	ev["ssize"] = int(r.pid.StashSize())
+	ev["blocking"] = r.pid.VerifBlockingRequests()
+	ev["done"] = done
+	r.w.Raw(ev)
+}
+
+func (r *run) restashStep(s step, n int, resp map[int]*responder, rpids *[]*actor.PID) {
+	ctx := context.Background()
+	switch s.Op {
+	case "Send":
+		r.sendQuiet = true
+		id := r.send()
+		r.sendQuiet = false
+		r.rlog("Send", id, nil)
+	case "Request":
+		if r.cur == nil {
+			r.rlog("Request", s.ID, map[string]any{"err": "nohandler"})
+			return
+		}
+		q := &responder{arrived: make(chan struct{}, 1), release: make(chan struct{}), done: make(chan struct{}, 1)}
+		qp, err := r.sys.Spawn(ctx, fmt.Sprintf("resp-%d-%d", n, s.ID), q, actor.WithLongLived())
+		if err != nil {
+			fatal("spawn responder:", err)
+		}
+		resp[s.ID] = q
+		*rpids = append(*rpids, qp)
+		r.p.cmds <- cmd{op: "Request", k: s.ID, to: qp}
+		res := <-r.p.res
+		if res.err == "" {
+			select {
+			case <-q.arrived:
+			case <-time.After(watchdog):
+				abort("watchdog: request did not reach the responder")
+			}
+		}
+		r.rlog("Request", s.ID, map[string]any{"err": res.err})
+	case "Respond":
+		q := resp[s.ID]
+		if q == nil {
+			r.rlog("Respond", s.ID, map[string]any{"err": "norequest"})
+			return
+		}
+		delete(resp, s.ID)
+		q.release <- struct{}{}
+		<-q.done
+		r.rlog("Respond", s.ID, map[string]any{"err": ""})
+	case "Finish":
+		prev, prevStashed := r.cur, r.curStashed
+		id := 0
+		if prev != nil {
+			id = prev.msg.ID
+		}
+		r.finish()
+		if prev != nil {
+			r.collectReply(prev.msg.ID, !prevStashed)
+		}
+		r.rlog("Finish", id, nil)
+	default:
+		fatal("unknown restash step", s.Op)
+	}
+}
+
+func (r *run) restash(n int, steps []step) {
+	resp := map[int]*responder{}
+	var rpids []*actor.PID
+	nreq := 0
+	for _, s := range steps {
+		if r.corrupt {
+			break
+		}
+		if s.Op == "Request" {
+			nreq = s.ID
+		}
+		r.restashStep(s, n, resp, &rpids)
+	}
+	// epilogue: answer every open request, then let every parked handler return until idle
+	for k := 1; k <= nreq && !r.corrupt; k++ {
+		if resp[k] != nil {
+			r.restashStep(step{Op: "Respond", ID: k}, n, resp, &rpids)
+		}
+	}
+	for i := 0; r.cur != nil && !r.corrupt; i++ {
+		if i >= 64 {
+			r.corrupt = true
+			break
+		}
+		r.restashStep(step{Op: "Finish"}, n, resp, &rpids)
+	}
+	for _, q := range rpids {
+		sctx, cancel := context.WithTimeout(context.Background(), 5*time.Second)
+		_ = q.Shutdown(sctx)
+		cancel()
+	}
+}
+
 type sink struct{}
 
 func (sink) PreStart(*actor.Context) error  { return nil }
@@ -566,8 +782,8 @@ func (sink) PostStop(*actor.Context) error  { return nil }
 func (sink) Receive(*actor.ReceiveContext) {}
 
 func main() {
-	if len(os.Args) != 5 || os.Args[1] != "replay" || (os.Args[2] != "stack" && os.Args[2] != "stash") {
-		fmt.Fprintln(os.Stderr, "usage: stackstash replay stack|stash <behaviours> <trace>")
+	if len(os.Args) != 5 || os.Args[1] != "replay" || (os.Args[2] != "stack" && os.Args[2] != "stash" && os.Args[2] != "restash") {
+		fmt.Fprintln(os.Stderr, "usage: stackstash replay stack|stash|restash <behaviours> <trace>")
 		os.Exit(2)
 	}
 	behaviours, err := vtrace.ReadLines[[]step](os.Args[3])
